@@ -617,7 +617,22 @@ func main() {
 		group = g // development aid
 	}
 	opt := watexec.OptKey{CtrlDepth: mc.Pick(r, 2, 3), CtrlGroup: group, Partition: "wat2c", RecDepths: mc.Pick(r, []uint32{0, 1, 2, 10, 100, 1000}, []uint32{0, 1, 2, 3, 10, 100, 500, 1000, 1500})}
-	compilers := mc.Pick(r, []string{"gcc -O1"}, []string{"gcc -O1", "clang -O0"})
+	// The last configuration turns one class of C undefined behaviour that x86 hardware hides (a shift
+	// count >= the operand width: the CPU masks it, the C standard does not) into a trap; in the quick
+	// tier it is applied to the shift / rotate units only.
+	const ubsan = "gcc -O1 -fsanitize=shift-exponent -fsanitize-undefined-trap-on-error"
+	compilers := mc.Pick(r, []string{"gcc -O1", ubsan}, []string{"gcc -O1", "clang -O0", ubsan})
+	applies := func(cc string, u *watexec.Unit) bool {
+		if cc != ubsan || r.Thorough() {
+			return true
+		}
+		for _, s := range []string{".shl", ".shr_s", ".shr_u", ".rotl", ".rotr"} {
+			if u.Family == "num" && strings.HasSuffix(u.Name, s) {
+				return true
+			}
+		}
+		return false
+	}
 	configs := []string{watexec.WzCompiler, watexec.WzInterpreter}
 
 	r.Rule("every exported function of every unit of engine/watexec (see C31) is called in the C translation (wat2c.Wat2C + each listed C compiler, driver c/driver.c) and on V8, wazero-compiler and wazero-interpreter. Two outcomes are distinct when instruction, result bits / signal, memory hash or host trace differ")
@@ -631,7 +646,7 @@ func main() {
 	r.Assume("'trap' on the C side = the call ends in SIGFPE / SIGSEGV / SIGBUS / SIGILL / SIGABRT / SIGTRAP (abort() included); only trap / no trap is compared, not the trap class. The module's memory is what the repository's own host template provides (one array of max-pages size), placed inside an 8 GiB PROT_NONE reservation so that an unchecked access outside that array faults deterministically instead of reading the driver's own memory")
 	r.Assume("a call on which V8 and the two wazero configurations disagree among themselves has no oracle here and is skipped (counted in oracle_disagreements; C31 reports it)")
 	r.Assume("NaN results of arithmetic instructions compare as 'a quiet NaN' (the specification leaves sign and payload open); everything else is bit-exact; memory.grow only on memories with a declared maximum")
-	r.Assume("C compilers as installed: gcc 12 -O1 (and clang 14 -O0 in the thorough tier), default flags otherwise (no -fwrapv, no -fno-strict-aliasing), warnings off")
+	r.Assume("C compilers as installed: gcc 12 -O1 (and clang 14 -O0 in the thorough tier), default flags otherwise (no -fwrapv, no -fno-strict-aliasing), warnings off; plus gcc -O1 with -fsanitize=shift-exponent (trap on error) so that a shift count >= width, which the C standard leaves undefined and x86 masks in hardware, is observable (quick tier: shift / rotate units only)")
 
 	units, err := watexec.UnitsFor(opt)
 	if err != nil {
@@ -709,7 +724,7 @@ func main() {
 		}
 		weight := 0
 		for i, u := range units {
-			if skip(u) {
+			if skip(u) || !applies(cc, u) {
 				continue
 			}
 			w := 1
@@ -870,7 +885,7 @@ func main() {
 			continue
 		}
 		for _, cc := range compilers {
-			if cres[cc][i].Status != "rejected" && v8out[i] == nil {
+			if applies(cc, u) && cres[cc][i].Status != "rejected" && v8out[i] == nil {
 				late = append(late, i)
 				break
 			}
@@ -891,12 +906,12 @@ func main() {
 			continue
 		}
 		for _, cc := range compilers {
+			if !applies(cc, u) {
+				continue
+			}
 			cr := &cres[cc][i]
 			stat[cc+"|"+cr.Status]++
-			tag := ""
-			if len(compilers) > 1 && cc != compilers[0] {
-				tag = "|" + cc
-			}
+			tag := "" // keys do not name the C compiler: the same defect class under another compiler is the same finding
 			famKey := u.Name
 			switch u.Family {
 			case "ctrl":
@@ -1002,6 +1017,12 @@ func main() {
 				if cClass == "" {
 					continue
 				}
+				if strings.HasPrefix(cClass, "signal") && len(c.Args) == 2 && strings.Contains(c.Class, "count") {
+					// a trap of the C code on a shift / rotate depends on the count only
+					cc2 := *c
+					cc2.Class = c.Class[strings.Index(c.Class, "count"):]
+					c = &cc2
+				}
 				perInstr := (ref[ci].Trap != "" && co.K == "ok") || strings.HasSuffix(cClass, "+memory-differs") || u.Family == "corpus"
 				key := fmt.Sprintf("%s|%s|wasm=%s|c=%s%s", c.Instr, keyClass(c, perInstr), wasmClass, cClass, tag)
 				cs := co.K
@@ -1021,6 +1042,46 @@ func main() {
 		}
 	}
 	sort.SliceStable(cands, func(a, b int) bool { return cands[a].order < cands[b].order })
+
+	// replay: the first witness of every key is translated, compiled and run once more, alone, in a
+	// fresh worker and a fresh driver process; its C outcome must be the same
+	type rk struct {
+		cc   string
+		unit int
+	}
+	firstOf := map[string]bool{}
+	want := map[rk][]int{}
+	var rks []rk
+	for _, c := range cands {
+		rp, ok := c.replay.(map[string]interface{})
+		if !ok || rp["call"] == nil || firstOf[c.key] {
+			continue
+		}
+		firstOf[c.key] = true
+		k := rk{rp["cc"].(string), c.order / 1000000}
+		if _, ok := want[k]; !ok {
+			rks = append(rks, k)
+		}
+		want[k] = append(want[k], c.order%1000000)
+	}
+	rpool := mc.NewPool(nw, nil)
+	rpool.Run(len(rks), func(i int) interface{} { return mkCC(batch{rks[i].cc, []int{rks[i].unit}}) }, 60*time.Minute, func(res mc.Result) {
+		k := rks[res.Index]
+		u := units[k.unit]
+		var cr ccResult
+		if res.Status != "ok" || json.Unmarshal(res.Out, &cr) != nil || cr.Err != "" || len(cr.Units) != 1 || cr.Units[0].Status != "ok" {
+			r.HarnessError("replay of %s with %s failed: %s %s", u.Name, k.cc, res.Status, cr.Err)
+			return
+		}
+		for _, ci := range want[k] {
+			a, b := cres[k.cc][k.unit].Out[ci], cr.Units[0].Out[ci]
+			if a.K != b.K || fmt.Sprint(a.Res) != fmt.Sprint(b.Res) || a.Mem != b.Mem || a.Trace != b.Trace {
+				r.HarnessError("%s call %d with %s did not reproduce: %v then %v", u.Name, ci, k.cc, a, b)
+			}
+		}
+	})
+	rpool.Close()
+	r.Extra("replayed_units", len(rks))
 	for _, c := range cands {
 		r.Report(c.key, c.what, c.replay)
 	}
